@@ -4,10 +4,13 @@ i = s.index('### 12.5 Which check catches which seeded change')
 table = open('/tmp/seedtable.md').read()
 new = '''### 12.5 Which check catches which seeded change
 
-160 changes were written by sub-agents that saw only the text of one property and their own scratch worktree: two per property in each of four rounds
-(A, B; C, D; E, F; G, H). From the second round on the agents were additionally told one line about each earlier change for their property so as not to repeat it; in the fourth round the two
+200 changes were written by sub-agents that saw only the text of one property and their own scratch worktree: two per property in each of five rounds
+(A, B; C, D; E, F; G, H; I, J). From the second round on the agents were additionally told one line about each earlier change for their property so as not to repeat it; in the fourth round the two
 changes had prescribed styles: G a concurrency or resource-lifetime slip (a lock moved, a goroutine added, pooling or caching, a timer, a finalizer, a deferred clean-up in the wrong place),
 H a slip in glue or wiring (the main program's flags and the way it builds its components, a constructor's defaults, a small helper, a library option, an error translated on its way up).
+In the fifth round: I a slip on an error path or at a boundary (something failing half-way, the first / last / empty / maximal element, two things ending at the same moment),
+J a well-meant hardening, limit or normalisation that bites legitimate use (a timeout, a size cap, stricter validation, rate limiting, trimming, de-duplication).
+The share of changes the checks missed at first sight was 12 of 40, 11 of 38, 22 of 42 and 17 of 40 in rounds two to five: prescribing a *style* the checks had not met yet was what kept finding blind spots.
 Each change was confirmed here
 (`tools/seedconfirm.sh`: builds, whole existing suite passes, the agent's demonstration fails with the change and passes without) and kept under
 `seeded/<id>/` (`patch.diff`, demonstration, `NOTES.agent.md`, `confirm.log`, `check.out`, `meta.json`). The checks were run against each with
@@ -86,6 +89,23 @@ What each missed (or nearly missed) change led to:
 | C19-G (one long-lived key goroutine fed through an unbuffered channel) | missed | lock-interleaving scenarios with two Ctrl+O keys typed together (`KKP`, `PKK`, `MKKP`; 1 536 schedules instead of 136) |
 | C19-H (timer created lazily) | exit 2 ("shim not linked") | the linkage check no longer assumes a timer armed by the constructor |
 | C20-G (`close(s.ich)` while an insertion may still send) | missed | exits "Tab then Ctrl+D" and "queue full, Tab, Ctrl+D" |
+| C01-I (a side that ends with an error also clears the other side's slot) | missed | write failures in C01's uni profile (72 k states) |
+| C03-I (`writePlain` retries a whole chunk after `EAGAIN`) | missed | a terminal that takes only part of a write: a pipe the runtime's poller does not know, put into non-blocking mode behind the program's back, 6 KiB chunks (more than `PIPE_BUF`), read out later: what it holds must be a prefix of what was sent |
+| C04-J (`Broker.Do` gives attached streams a 5 s grace) | missed | virtual clock: a shell whose streams are not the broker's to cancel, a stalled terminal, shutdown, ten minutes pass: `Do` must not have returned |
+| C05-I (callback ports >= 32768 overwritten by the listen port) / C05-J (`MinVersion: TLS 1.3`) | missed | callback addresses `high.example:50443`, `[2001:db8::2]:65535`, and every user-supplied `host:port` must be among the printed addresses; `curl --tls-max 1.2` with the advertised pin |
+| C06-I (chunks an ended output stream had already read are shown later) | missed | HTTP seam: a unidirectional shell loses its input connection, a `/io` client becomes the shell, the old output connection sends a chunk |
+| C07-J (template read through a 64 KiB `LimitReader`) | missed | a 100 kB template (a library of functions before the callback lines) among the template-file operations |
+| C08-I (a failing cache write is swallowed) / C08-J (atomic write renamed to the lexically cleaned path) | missed | the `os` shim can make `WriteFile` fail with `ENOSPC` after k bytes; cache paths with `..` after a symbolic link, doubled separators, dot segments |
+| C09-I (`/c` with an unparsable query falls through to the file handler) | missed | `/c?x=%zz`, `/c?%`, `/c?a=1;b=2` among the shell-endpoint targets |
+| C10-I (c2 in a format position when the script cannot be delivered) | missed | a template of several MiB and clients that hang up without reading |
+| C11-J (a line's write gets 5 s, then the stream is given up while the write goes on) | missed | virtual clock: an input stream that accepts its line after a minute; delivered lines = input records |
+| C12-J (listener closed 500 ms after the ready notice, never if the shell is gone by then) | missed | sessions whose shell ends the moment it is ready |
+| C13-I (only `ErrNoMatchingCertificate` counts as refusal) / C13-J (`sha256/` prefix trimmed greedily) | missed | server U presenting a second certificate whose key Go cannot marshal (Ed25519 relabelled as Ed448); server S whose pin begins with `/`, in both spellings |
+| C14-I (stderr forwarded line by line, unterminated tail dropped) / C14-J (CR LF normalised in the input) | missed | output sizes that are not a multiple of the stamp's 8-byte records; CR LF pairs in the input stamp |
+| C16-I (`FromPerl` drops what a reader returns together with `io.EOF`) | missed | reader shapes: one byte at a time, halves, data with EOF, everything with EOF, a reader that times out |
+| C17-J (files read through a 1 MiB `LimitReader`) | missed | eligible files of 1-3 MiB, in a directory and as single-file sources |
+| C19-J (muting capped at 20 s) | missed | two fixed long floods (23 s at 1.9 s gaps; 3 s at 0.1 s gaps and on) run through the same oracle as the enumeration |
+| C20-J (terminal restored only if standard input is a terminal) | missed | controlling terminal present, standard input `/dev/null` |
 
 **C12-D** moves the registration of the server's event listener into the watcher goroutine, after HTTP is being served; it needs the broker to be busy delivering an earlier event to
 another slow listener at start-up. The in-process scenario `c12BusyBroker` reproduces that set-up; its result for this change is recorded in `seeded/C12-D/check.out` (the agent's own
